@@ -152,7 +152,7 @@ fn run(zones_tok: &str, cache_tok: &str, questions: &str) -> String {
 
 pub fn handle(toks: &[&str]) -> String {
     match toks {
-        ["R", zones, cache, questions] => run(zones, cache, questions),
+        ["R", zones, cache, questions] | ["R", zones, cache, questions, _] => run(zones, cache, questions),
         _ => panic!("local: bad case"),
     }
 }
